@@ -615,6 +615,15 @@ func (f *Frame) execBuiltin(b *ssa.Builtin, c *ssa.CallCommon, args []Val, st *S
 			asort := ArraySort(SInt, ArraySort(SInt, es))
 			arr := u.heapGet(st, class, asort)
 			na := u.defs.Fresh("copied", ArraySort(SInt, es))
+			// elements outside the destination slice keep their values
+			{
+				u.qctr++
+				qj := Term{fmt.Sprintf("q%d_j", u.qctr), SInt}
+				dOff := App("s_off", SInt, args[0].T)
+				dEnd := App("+", SInt, dOff, App("s_len", SInt, args[0].T))
+				oldArr := Select(arr, App("s_arr", SInt, args[0].T))
+				u.assume(st, Term{fmt.Sprintf("(forall ((%s Int)) (! (=> (or (< %s %s) (>= %s %s)) (= (select %s %s) (select %s %s))) :pattern ((select %s %s))))", qj.S, qj.S, dOff.S, qj.S, dEnd.S, na.S, qj.S, oldArr.S, qj.S, na.S, qj.S), SBool})
+			}
 			u.heapSet(st, class, u.defs.Define("H_"+class, Store(arr, App("s_arr", SInt, args[0].T), na)))
 			n := u.defs.Fresh("ncopy", SInt)
 			u.assume(st, And(App(">=", SBool, n, IntLit(0)), App("<=", SBool, n, App("s_len", SInt, args[0].T))))
@@ -635,6 +644,14 @@ func (f *Frame) execBuiltin(b *ssa.Builtin, c *ssa.CallCommon, args []Val, st *S
 					srt := u.classSort[cls]
 					ea := u.heapGet(st, cls, srt)
 					fresh := u.defs.Fresh("copied_"+cls, arrayValSort(srt))
+					// a decoded field that lies entirely before the destination slice is not touched by the copy
+					if w, okw := map[string]int64{"Enc.BE16": 2, "Enc.BE32": 4, "Enc.BE64": 8, "Enc.LE32": 4, "Enc.LE64": 8}[cls]; okw {
+						u.qctr++
+						qp := Term{fmt.Sprintf("q%d_p", u.qctr), SInt}
+						dOff := App("s_off", SInt, args[0].T)
+						oldV := Select(ea, App("s_arr", SInt, args[0].T))
+						u.assume(st, Term{fmt.Sprintf("(forall ((%s Int)) (! (=> (<= (+ %s %d) %s) (= (select %s %s) (select %s %s))) :pattern ((select %s %s))))", qp.S, qp.S, w, dOff.S, fresh.S, qp.S, oldV.S, qp.S, fresh.S, qp.S), SBool})
+					}
 					inner := Ite(whole, Select(ea, App("s_arr", SInt, args[1].T)), fresh)
 					u.heapSet(st, cls, u.defs.Define("H_"+cls, Store(ea, App("s_arr", SInt, args[0].T), inner)))
 				}
